@@ -13,9 +13,17 @@ Case line (kind `a2`), fields separated by `|`:
           VK the validator's n-th call fails · D constant default · Z class shape (plain; `s`: declared in a base
           class and overridden *by value* D2 in the subclass the object belongs to; `t`: the same TraitType
           instance is bound to an earlier name first; `i`: everything is declared in a base class and the object is an
-          instance of a subclass that inherits it) · TT real trait type used (table-driven TraitType / Int / Str /
-          expr = traits.api.Expression, which stores the assigned string and validates by compiling it: pool id
-          `code_k` stands for the fresh code object)
+          instance of a subclass that inherits it; `m`: ONE CTrait object is bound to two or three names of the class
+          — the "reusable trait definition" idiom —, see M) · TT real trait type used (table-driven TraitType / Int /
+          Str / expr = traits.api.Expression, which stores the assigned string and validates by compiling it: pool id
+          `code_k` stands for the fresh code object / cast = `Trait(<int default>)`, a CTrait made by the Trait()
+          factory)
+          M=<how>:<names>:<statics>:<other> (shape m only) · how the shared CTrait is made (a: `.as_ctrait()` of the
+          trait type, or the Trait(...) result itself; t: `Trait(<that CTrait>)`) · the sharing names in class-body
+          order (x is the attribute under test, w / y the others) · static handlers of the other names (`wc` =
+          `_w_changed`, `yf` = `_y_fired`, dot-separated) · a second class using the same CTrait object for its own x
+          with its own `_x_changed` / `_anytrait_changed`, defined before (b) / after (a) the class under test.  Every
+          other name also gets an on_trait_change and an observe handler after construction.
   pool    ids are positions in `names`; 0 = Uninitialized, 1 = Undefined, 2 = None.  eq/ne are the REAL
           `bool(a == b)` / `bool(a != b)` outcomes (y / n / r = raises), computed from the objects
   route   R=c constructor (default) · s explicit __setstate__(__getstate__()) of an object built with the keyword ·
@@ -29,7 +37,9 @@ Case line (kind `a2`), fields separated by `|`:
   ops     ird h [c|f] / iro h [c|f] (decorated @on_trait_change / @observe methods, all ird before all iro, first;
           with c / f the method carries the magic name _x_changed / _x_fired) · prd h / pro h (the same decorators
           with post_init=True: attached after the initial state is set; right after `ctor`) · ctor v (constructor keyword;
-          next) · set v · del · get · setq v · rd h p / ud h · ra h p / ua h (anytrait) · ro h / uo h
+          next) · set v · del · get · setq v · rd h p / ud h · ra h p / ua h (anytrait) · ro h / uo h ·
+          sib <w|y> v (shape m: assign the accepted value v to another name sharing the definition; for the attribute
+          under test this is a step in which nothing happens)
 
 Output, per op:  ok|err <Exc> v=<read value> s=<__dict__ slot> i=<instance trait exists> n=<len tnotifiers>,<len
 onotifiers> c=[h:old>new,…] p=[post_setattr values]
@@ -51,7 +61,10 @@ RULE = ("exhaustive histories of length <= 3 (quick) / <= 4 (thorough) of {set v
         "from a catalogue (equal-not-identical ints/strs/tuples/arrays, NaN, == raising, inconsistent ==/!=, None, "
         "Undefined, vetoing HasTraits value), table validators (reject / coerce to another pool object / raise), "
         "real Int and Str traits, post_setattr, setattr_original_value, handlers that raise or unregister "
-        "themselves, re-raising exception handlers, subclass-override and shared-TraitType class shapes; "
+        "themselves, re-raising exception handlers, subclass-override and shared-TraitType class shapes, one CTrait "
+        "object (as_ctrait() / Trait(...)) bound to two or three names with static handlers per name, an on_trait_change "
+        "and an observe handler per name and assignments to the other names (every handler of every dispatch path is "
+        "called for its own name only, the anytrait handler once per change); "
         "a case is non-trivial when a handler was called, a value stored or an exception raised; distinct = "
         "distinct canonical output line")
 TRUSTED = [
@@ -90,6 +103,8 @@ def mk_case(T, names, H, RL, RO, S, ops):
     tf = " ".join("%s=%s" % (k, T[k]) for k in ("K", "C", "O", "Q", "P", "V", "VK", "D", "Z", "D2", "TT"))
     if T.get("R", "c") != "c":
         tf += " R=" + T["R"]
+    if T["Z"] == "m":
+        tf += " M=" + T["M"]
     hf = "H=%s RL=%d RO=%d S=%s" % (",".join(H) or "o", RL, RO, ",".join(S) or "-")
     if T.get("DH"):
         hf += " DH=1"
@@ -135,6 +150,20 @@ def corpus():
     for r in "csy":
         out.append(mk_case(base_T(C="0", R=r), names, ["o"] * 5, 0, 0, ["c0"],
                            ["ird 1", "iro 2", "ctor 3", "prd 3", "pro 4", "set 4", "set 4", "del"]))
+    # one CTrait object bound to several names, each with its own static handlers (reusable trait definition)
+    cn = ["Uninitialized", "Undefined", "None", "int1", "int7", "big_a", "big_b", "str_c"]
+    cv = "T,T,T,=,=,=,=,T"
+    for how, order, sst, other in (("a", "xw", "wc", "-"), ("a", "wxy", "wc.yf", "-"), ("t", "wx", "wc", "b"),
+                                   ("a", "xy", "-", "a"), ("t", "ywx", "wf.yc", "-")):
+        for tt, c in (("cast", "2"), ("tab", "0"), ("int", "1")):
+            out.append(mk_case(base_T(C=c, Z="m", TT=tt, D="3", V=cv, M="%s:%s:%s:%s" % (how, order, sst, other)),
+                               cn, ["o"] * 4, 0, 0, ["a0", "c1"],
+                               ["rd 2 0", "ro 3", "set 4", "set 4", "sib %s 4" % order.replace("x", "")[0], "set 5",
+                                "sib %s 6" % order.replace("x", "")[-1], "set 7", "set 6", "del"]))
+    out.append(mk_case(base_T(K="E", Z="m", M="a:wx:wf:-"), names, ["o"] * 3, 0, 0, ["f0"],
+                       ["rd 1 0", "ro 2", "set 3", "sib w 3", "set 3"]))
+    out.append(mk_case(base_T(C="0", Z="m", M="a:xw:wc:-"), names, ["o"] * 3, 0, 0, [],
+                       ["rd 1 0", "ro 2", "set 3", "sib w 4", "set 3"]))
     # raising handlers, self-removing handlers, re-raise
     out.append(mk_case(base_T(C="0"), names, ["r", "x", "r", "o"], 0, 0, ["c0"],
                        ["rd 1 0", "ro 2", "ra 3 0", "set 3", "set 3", "set 4"]))
@@ -175,6 +204,9 @@ def random_names(rng, tt):
         extra = ["int1", "int7", "big_a", "big_b"][: rng.randint(2, 4)] + rng.sample(["str_c", "float1", "nan", "arr_a"], 2)
     elif tt == "str":
         extra = ["str_a", "str_b", "str_c"][: rng.randint(2, 3)] + rng.sample(["int1", "nan", "tup_a", "eqraises"], 2)
+    elif tt == "cast":
+        # Trait(<int>): accepts ints as they are; would CONVERT floats / arrays, so those stay out of the pool
+        extra = ["int1", "int7", "big_a", "big_b"][: rng.randint(2, 4)] + rng.sample(["str_c", "nan", "tup_a", "eqraises"], 2)
     elif tt == "expr":
         return names + ["expr_0", "expr_a", "expr_b", "expr_c", "expr_bad", rng.choice(["int7", "tup_a", "nan"]), "code_k"]
     else:
@@ -192,14 +224,14 @@ def random_names(rng, tt):
 
 
 def random_case(rng):
-    tt = rng.choice(["tab"] * 8 + ["int", "str", "expr"])
+    tt = rng.choice(["tab"] * 8 + ["int", "str", "expr", "cast"])
     names = random_names(rng, tt)
     n = len(names)
     T = base_T(TT=tt)
     T["K"] = "E" if (tt == "tab" and rng.random() < 0.12) else "T"
     T["C"] = rng.choice("012")
     valid = list(range(2, n))
-    if tt == "int":
+    if tt in ("int", "cast"):
         tab = ["=" if names[i] in A.INT_NAMES else "T" for i in range(n)]
         T["V"] = ",".join(tab)
     elif tt == "str":
@@ -248,6 +280,19 @@ def random_case(rng):
         T["D2"] = str(rng.choice(ok_default)) if ok_default else "2"
     elif rng.random() < 0.15:
         T["Z"] = "i"
+    sibs = []
+    if T["Z"] == "p" and rng.random() < 0.14:
+        # one CTrait object bound to two or three names
+        T["Z"] = "m"
+        sibs = rng.sample(["w", "y"], rng.randint(1, 2))
+        order = sibs + ["x"]
+        rng.shuffle(order)
+        sst = []
+        for j in sorted(sibs):
+            r = rng.random()
+            sst += [j + "c"] if r < 0.45 else [j + "f"] if r < 0.65 else [j + "c", j + "f"] if r < 0.8 else []
+        other = "-" if rng.random() < 0.7 else rng.choice("ab")
+        T["M"] = "%s:%s:%s:%s" % (rng.choice("at"), "".join(order), ".".join(sst) or "-", other)
     # handlers and their roles
     nh = rng.randint(1, 5)
     roles = {}
@@ -255,7 +300,7 @@ def random_case(rng):
     statics = ["a", "c", "f"] if T["K"] == "T" else ["a", "f"]
     hid = 0
     for k in statics:
-        if hid < nh and rng.random() < 0.45:
+        if hid < nh and rng.random() < (0.7 if sibs else 0.45):
             S.append("%s%d" % (k, hid))
             roles[hid] = "static"
             hid += 1
@@ -320,6 +365,13 @@ def random_case(rng):
         if pending and r < 0.5:
             h = pending.pop()
             ops.append(reg_op(rng, roles[h], h))
+        elif sibs and accepted and r < 0.62:
+            v = rng.choice(accepted)
+            if rng.random() < 0.4 and ops and ops[-1].split()[0] in ("set", "sib"):
+                v = int(ops[-1].split()[-1])         # the same object as the previous assignment
+                if v not in accepted:
+                    v = rng.choice(accepted)
+            ops.append("sib %s %d" % (rng.choice(sibs), v))
         elif r < 0.80 or not rest:
             v = rng.choice(valid + [1]) if rng.random() < 0.97 else 1
             if rng.random() < 0.35 and ops and ops[-1].startswith("set "):
@@ -427,6 +479,15 @@ def run_impl(case):
     route = T.get("R", "c")
     holder = {}
     BARE = object()     # marker: a decorated observer was called with something that is not a change event
+    # shape m: one CTrait object bound to several names
+    shared = T["Z"] == "m"
+    sib_log = []        # (mechanism label, name reported, old, new): calls of handlers that belong to OTHER names
+    if shared:
+        how, order, sst, other_cls = T["M"].split(":")
+        sst = [] if sst == "-" else sst.split(".")
+        sibs = [c for c in order if c != "x"]
+        tags.update({"share:" + how, "share:%d-names" % len(order), "share:x-at-%d" % order.index("x"),
+                     "share:other-class=" + other_cls})
 
     def fire(h, old, new):
         n = len(log)
@@ -471,7 +532,24 @@ def run_impl(case):
         def m(self, name, old, new):
             if name == "x":
                 fire(h, old, new)
+            else:
+                sib_log.append(("anytrait", name, old, new))
         return m
+
+    def mk_sib_static(label):
+        def m(self, name, old, new):
+            sib_log.append((label, name, old, new))
+        return m
+
+    def mk_sib_dyn(label):
+        def fn(obj, name, old, new):
+            sib_log.append((label, name, old, new))
+        return fn
+
+    def mk_sib_obs(label):
+        def fn(event):
+            sib_log.append((label, event.name, event.old, event.new))
+        return fn
 
     def mk_static(h):
         def m(self, name, old, new):
@@ -511,12 +589,16 @@ def run_impl(case):
 
         class Ex(Expression):
             def post_setattr(self, object, name, value):
-                state["post"].append(value)
+                if name == "x" or not shared:
+                    state["post"].append(value)
                 Expression.post_setattr(self, object, name, value)
         trait = Ex(pool.objs[dflt], comparison_mode=ComparisonMode(cmode))
+    elif T["TT"] == "cast":
+        from traits.api import Trait
+        trait = Trait(pool.objs[dflt], comparison_mode=ComparisonMode(cmode))     # a CTrait
     else:
         trait = A.make_tab_trait(pool, vtab, dflt, kind=kind, cmp=cmode, orig=int(orig), porig=int(T["Q"] == "1"),
-                                 post=T["P"], vk=vk, state=state)
+                                 post=T["P"], vk=vk, state=state, only="x" if shared else None)
     ns = {}
     for s in S:
         k, h = s[0], int(s[1:])
@@ -576,6 +658,24 @@ def run_impl(case):
         ns2.update(ns)
         ns2["x"] = trait
         cls = type("Twice", (HasTraits,), ns2)
+    elif shared:
+        from traits.api import Trait
+        ct = trait.as_ctrait()
+        if how == "t":
+            ct = Trait(ct)
+
+        def other():
+            return type("Other", (HasTraits,), {"x": ct, "_x_changed": mk_sib_static("Other._x_changed"),
+                                                "_anytrait_changed": mk_sib_static("Other._anytrait_changed")})
+        if other_cls == "b":
+            holder["other"] = other()
+        ns2 = {nm: ct for nm in order}
+        ns2.update(ns)
+        for ss in sst:
+            ns2["_%s_%s" % (ss[0], "changed" if ss[1] == "c" else "fired")] = mk_sib_static("static:" + ss)
+        cls = type("Mixer", (HasTraits,), ns2)
+        if other_cls == "a":
+            holder["other"] = other()
     else:
         ns["x"] = trait
         cls = type("Plain", (HasTraits,), ns)
@@ -619,6 +719,11 @@ def run_impl(case):
                 obj.__init__()
         except Exception as e:
             exc = e
+        if shared:
+            # the other names sharing the definition: one handler per dynamic dispatch path each
+            for j in sibs:
+                obj.on_trait_change(mk_sib_dyn("dynamic:" + j), j)
+                obj.observe(mk_sib_obs("observe:" + j), j)
         eff_mode = cmode
         real = obj.trait("x")
         dobj = real.default_value()[1] if kind == "T" else None
@@ -670,11 +775,13 @@ def run_impl(case):
                 outs.append(None)
                 continue
             log0, post0 = len(log), len(state["post"])
+            sib0 = len(sib_log)
             reg_before = dict(registered)
             val = A
             if k == "ctor":
                 slot_before = before_slot
                 log0, post0 = 0, 0
+                sib0 = 0
                 # exc from __init__
             else:
                 slot_before = obj.__dict__.get("x", A)
@@ -688,6 +795,9 @@ def run_impl(case):
                         val = obj.x
                     elif k == "setq":
                         obj.trait_setq(x=pool.objs[int(op[1])])
+                    elif k == "sib":
+                        sib_before = obj.__dict__.get(op[1], A)
+                        setattr(obj, op[1], pool.objs[int(op[2])])
                     elif k == "rd":
                         h = int(op[1])
                         if roles[h] == "idyn":
@@ -729,6 +839,18 @@ def run_impl(case):
             if log[log0:]:
                 tags.add("notified")
             # --------------------------------------------------------- ORACLE
+            # one definition shared by several names: every handler of every dispatch path belongs to ONE name
+            sdelta = sib_log[sib0:]
+            if k == "ctor" and route != "c":
+                sdelta = []      # restoring a state assigns every name of the state, the other names included
+            if shared and k != "sib":
+                for label, nm, o, n in sdelta:
+                    hits.append(_hit("shared-definition:handler-of-another-name-called:" + label.split(":")[0].split(".")[0],
+                                     "`%s` on x called the handler %s (reported name %r, %s -> %s)" % (
+                                         " ".join(op), label, nm, pool.show(o), pool.show(n)), step=idx))
+            elif shared:
+                hits.extend(sibling_oracle(op, idx, exc, sdelta, sib_before, obj, pool, vtab, kind, orig, eff_mode,
+                                           dobj, sst, any(x[0] == "a" for x in S), tags))
             if k in ("set", "ctor", "setq"):
                 v = int(op[1])
                 vobj = pool.objs[v]
@@ -824,6 +946,12 @@ def run_impl(case):
                 if len(got) == len(exp) and all(g[0] is e[0] and g[1] is e[1] for g, e in zip(got, exp)):
                     continue
                 osfx = ":setattr-original-value" if (orig and kind == "T") else ""
+                if k == "sib":
+                    hits.append(_hit("shared-definition:handler-of-another-name-called:" + hk,
+                                     "`%s` called handler %d (%s) of x with %s" % (
+                                         " ".join(op), h, role, [(pool.show(o), pool.show(n)) for o, n in got]),
+                                     step=idx))
+                    continue
                 # truthfulness first: every call made must carry (readable before, readable after)
                 untruthful = [g for g in got if not (
                     (g[0] is old_spec) and (g[1] is new_spec))] if (old_spec is not A and new_spec is not A) else []
@@ -850,6 +978,62 @@ def run_impl(case):
         else:
             res.append(o)
     return " ; ".join(_fill_init(res, ops, S)), hits, tags
+
+
+def sibling_oracle(op, idx, exc, sdelta, before, obj, pool, vtab, kind, orig, mode, dobj, sst, has_any, tags):
+    """`sib j v`: the accepted value v was assigned to the name j that shares its definition (one CTrait object)
+    with x.  Exactly the handlers of j see the change, each once, on every dispatch path."""
+    hits = []
+    j, v = op[1], int(op[2])
+    vobj = pool.objs[v]
+    act = "=" if vtab is None else vtab[v]
+    if act in ("T", "E"):
+        raise AssertionError("sib assigns accepted values only")
+    tags.add("sib-op")
+    wobj = vobj if act == "=" else pool.objs[int(act)]
+    new = vobj if (act == "=" or (orig and kind == "T")) else wobj
+    if exc is not None:
+        hits.append(_hit("accepted-assignment-raised:sib", "assigning an accepted value to %s raised %s" % (
+            j, A.show_exc(exc)), step=idx))
+        return hits
+    if kind == "T" and obj.__dict__.get(j, A) is not new:
+        hits.append(_hit("assignment-not-stored:sib", "the accepted value is not what is stored afterwards", step=idx))
+    if any(new is pool.objs[i] for i in pool.veto):
+        return hits
+    check_legacy = True
+    if kind == "E":
+        exp = [(pool.objs[A.UNDEF], new)]
+    else:
+        old = dobj if before is A else before
+        exp, check_legacy = real_change(mode, old, new, tags)
+        if orig and ((old is new) != (old is wobj)):
+            return hits                    # finding F22 decides the count here
+    mine = {"dynamic:" + j: "dynamic", "observe:" + j: "observe"}
+    for ss in sst:
+        if ss[0] == j:
+            mine["static:" + ss] = "static"
+    if has_any:
+        mine["anytrait"] = "anytrait"
+    for label, mech in mine.items():
+        got = [(nm, o, n) for lb, nm, o, n in sdelta if lb == label]
+        if mech != "observe" and not check_legacy:
+            continue
+        if len(got) == len(exp) and all(g[0] == j and g[1] is e[0] and g[2] is e[1] for g, e in zip(got, exp)):
+            continue
+        if any(g[0] != j or (exp and not (g[1] is exp[0][0] and g[2] is exp[0][1])) for g in got):
+            what = "untruthful"
+        else:
+            what = "missed-call" if len(got) < len(exp) else "spurious-call"
+        hits.append(_hit("shared-definition:%s:%s" % (what, mech),
+                         "`%s`: the %s handler %s saw %s, the property requires %s" % (
+                             " ".join(op), mech, label, [(g[0], pool.show(g[1]), pool.show(g[2])) for g in got],
+                             [(j, pool.show(o), pool.show(n)) for o, n in exp]), step=idx))
+    for lb, nm, o, n in sdelta:
+        if lb not in mine:
+            hits.append(_hit("shared-definition:handler-of-another-name-called:" + lb.split(":")[0].split(".")[0],
+                             "`%s` called the handler %s (reported name %r, %s -> %s)" % (
+                                 " ".join(op), lb, nm, pool.show(o), pool.show(n)), step=idx))
+    return hits
 
 
 def _fill_init(res, ops, S):
